@@ -492,7 +492,7 @@ def run_check(ctx, prop):
         model["runs"] = run_families(ctx, fams, workers=4, timeout=300, par=3)
         if not quick:
             full = [(f, {}) for f in FAMILIES[prop]]
-            model["runs"] += run_families(ctx, full, workers=6, timeout=1200, par=2, suffix="-full")
+            model["runs"] += run_families(ctx, full, workers=5, timeout=600, par=3, suffix="-full")
 
     def do_traces():
         ntr = 14 if quick else 60
